@@ -619,6 +619,36 @@ def extract_struct(src, selector):
 
 
 # ----------------------------------------------------------------------------------------------
+def find_method(src, type_name, fn_name):
+    """(impl header text, selector) of `fn fn_name` in an inherent or trait impl for `type_name`"""
+    res = []
+    for (kind, name, kw, body, end) in _items(src, 0, len(src.toks)):
+        if kind != 'impl' or body is None:
+            continue
+        if not re.search(r'(?<![A-Za-z0-9_])%s(?![A-Za-z0-9_])' % re.escape(type_name), name):
+            continue
+        for (k2, n2, kw2, b2, e2) in _items(src, body + 1, end):
+            if k2 == 'fn' and n2 == fn_name:
+                header = src.text[src.toks[kw].start:src.toks[body].start].strip()
+                res.append((header, 'impl %s :: fn %s' % (src.text[src.toks[kw].end:src.toks[body].start].strip(), fn_name)))
+    return res
+
+
+def find_free_fn(src, fn_name):
+    return [('', 'fn %s' % fn_name) for (kind, name, kw, body, end) in _items(src, 0, len(src.toks)) if kind == 'fn' and name == fn_name]
+
+
+def render_extra(repo_root, rel, header, selector):
+    """text of one function pulled in WITHOUT a contract (auto-extracted callee)"""
+    src = Source(repo_root, rel)
+    spec = FnSpec()
+    text, lm, a, b = extract_fn(src, selector, spec)
+    marker = '// from %s:%d  [%s]  (auto-extracted callee: no contract)' % (rel, src.line_of(a), selector)
+    if header:
+        return '%s {\n%s\n%s\n}\n' % (header, marker, text)
+    return '%s\n%s\n' % (marker, text)
+
+
 def render(template_path, repo_root):
     """returns dict(text, linemap {out_line(1-based): (file, line)}, functions [ {selector,file,
     line, sha256} ], drops)"""
